@@ -1040,7 +1040,7 @@ def parseAML (d : Bytes) (fuel : Nat) (handle : Nat) : P Bool := do
   parseAMLBody d fuel
 
 /-- the fuel the replay driver and the theorems use: linear in table length + objects present -/
-def fuelFor (d : Bytes) (t : ObjectTree) : Nat := 8 * (d.size + t.pool.size) + 64
+def fuelFor (d : Bytes) (t : ObjectTree) : Nat := 32 * (d.size + t.pool.size) + 64
 
 /-- `NewObjectTree(); CreateDefaultScopes(tableHandle)` -/
 def defaultTree (handle : Nat) : Res ObjectTree :=
